@@ -48,6 +48,9 @@ RULE = (
     " Discovery replies also get field-level edits (boots/time up to 2^2000, field lengths 0."
     ".60000, header values, flags, counters, binding counts); the follow-up request runs unde"
     "r a step budget of its own."
+    " A latched engine (boots 2^31-1) answers every request with an authentic notInTimeWindow"
+    " report: each call ends within 6 requests and 8x the base step budget, three times in a "
+    "row."
 )
 ASSUMPTIONS = [
     "steps = sys.monitoring JUMP|PY_START|PY_RESUME|PY_THROW events inside puresnmp, puresnmp_plugins and x690 (every loop iteration takes a backward jump, every call a PY_START)",
